@@ -685,6 +685,21 @@ FIXED.append(
 )
 
 
+FIXED.append(
+    {  # float refinements whose bounds do not add back exactly, degenerate ranges, and a range wider than the largest float
+        "name": "fx_floats",
+        "abstracts": [{"name": "Root", "parent": None, "style": "abc"}],
+        "prods": [
+            {"name": "A", "parent": "Root", "fields": [["v", ["ann", ["float"], ["FloatRange", -0.3, 0.1]]]]},
+            {"name": "B", "parent": "Root", "fields": [["v", ["ann", ["float"], ["FloatRange", 0.9, 0.9]]], ["w", ["ann", ["float"], ["FloatRange", 0.1, 0.7]]]]},
+            {"name": "C", "parent": "Root", "fields": [["v", ["ann", ["float"], ["FloatRange", -1e308, 1e308]]]]},
+            {"name": "D", "parent": "Root", "fields": [["x", ["ref", "Root"]], ["y", ["ref", "Root"]]]},
+        ],
+        "start": "Root",
+    }
+)
+
+
 def family(seed: int, n: int, profile="general", with_fixed=True):
     """Yields n descriptors (fixed members first)."""
     out = []
